@@ -8,18 +8,17 @@ pub(crate) fn validate_scalar_definition(
     schema: &crate::Schema,
     scalar_def: &Node<schema::ScalarType>,
 ) {
-    // All built-in scalars must be omitted for brevity.
-    if !scalar_def.is_built_in() {
-        super::directive::validate_directives(
-            diagnostics,
-            Some(schema),
-            scalar_def
-                .directives
-                .iter()
-                .map(|component| &component.node),
-            ast::DirectiveLocation::Scalar,
-            // scalars don't use variables
-            Default::default(),
-        );
-    }
+    // The definitions of built-in scalars carry no directives, but user extensions of them
+    // (`extend scalar Int @d`) do: those are validated like any other.
+    super::directive::validate_directives(
+        diagnostics,
+        Some(schema),
+        scalar_def
+            .directives
+            .iter()
+            .map(|component| &component.node),
+        ast::DirectiveLocation::Scalar,
+        // scalars don't use variables
+        Default::default(),
+    );
 }
